@@ -14,6 +14,7 @@ let table : (string * (z list -> z list)) list = [
   ("line_edge", run_line_edge);
   ("quad_edge", run_quad_edge);
   ("cubic_edge", run_cubic_edge);
+  ("cubic_pin", run_cubic_pin);
   ("fill_px", run_fill_px);
   ("aruns", run_aruns);
   ("aa_spans", run_aa_spans);
